@@ -21,6 +21,7 @@ import (
 	"encoding/hex"
 	"fmt"
 	"io"
+	"iter"
 	"math/rand"
 	"net/http"
 	"os"
@@ -41,6 +42,9 @@ import (
 	"github.com/storacha/go-ucanto/core/ipld"
 	"github.com/storacha/go-ucanto/core/ipld/block"
 	"github.com/storacha/go-ucanto/core/message"
+	"github.com/storacha/go-ucanto/core/receipt"
+	rdm "github.com/storacha/go-ucanto/core/receipt/datamodel"
+	"github.com/storacha/go-ucanto/core/result"
 	"github.com/storacha/go-ucanto/transport"
 	"github.com/storacha/go-ucanto/transport/car/request"
 	thttp "github.com/storacha/go-ucanto/transport/http"
@@ -141,7 +145,79 @@ type bytesObs struct {
 	Exec   [][]byte
 	Rcpts  [][]byte
 	Gets   [][]byte // nil entry = not found
+	Reads  []rcptRead // one per found Get: the receipt read through receipt.NewReceipt
 	Blocks []c12Item
+}
+
+// what receipt.NewReceipt (the reader behind ReceiptReader.Read) made of the root a Get returned
+type rcptRead struct {
+	Err   bool
+	Panic string
+	Ran   []byte
+	Ok    bool
+	Sig   []byte
+	Iss   string // "" = no issuer, or one the DID parser refuses (not compared then)
+	Fork  [][]byte
+	Join  []byte
+	Prf   [][]byte
+}
+
+type msgBlockReader struct{ m message.AgentMessage }
+
+func (r msgBlockReader) Get(link ipld.Link) (ipld.Block, bool, error) {
+	for b, err := range r.m.Blocks() {
+		if err == nil && b.Link().String() == link.String() {
+			return b, true, nil
+		}
+	}
+	return nil, false, nil
+}
+func (r msgBlockReader) Iterator() iter.Seq2[ipld.Block, error] { return r.m.Blocks() }
+
+func bytesReadReceipt(m message.AgentMessage, rl ipld.Link) (rr rcptRead) {
+	if p := recovered(func() {
+		rc, err := receipt.NewReceipt[ipld.Node, ipld.Node](rl, msgBlockReader{m}, rdm.TypeSystem().TypeByName("Receipt"))
+		if err != nil || rc == nil {
+			rr.Err = true
+			return
+		}
+		if l := receipt.RanLink(rc); l != nil {
+			rr.Ran = []byte(l.Binary())
+		}
+		result.MatchResultR0(rc.Out(), func(ipld.Node) { rr.Ok = true }, func(ipld.Node) { rr.Ok = false })
+		rr.Sig = append([]byte{}, rc.Signature().Bytes()...)
+		if p := rc.Issuer(); p != nil {
+			rr.Iss = p.DID().String()
+		}
+		eff := rc.Fx()
+		for _, e := range eff.Fork() {
+			rr.Fork = append(rr.Fork, []byte(e.Link().Binary()))
+		}
+		if l := eff.Join().Link(); l != nil {
+			rr.Join = []byte(l.Binary())
+		}
+		for _, p := range rc.Proofs() {
+			rr.Prf = append(rr.Prf, []byte(p.Link().Binary()))
+		}
+	}); p != nil {
+		rr.Panic = fmt.Sprint(p)
+	}
+	return rr
+}
+
+func (rr rcptRead) coq() string {
+	if rr.Err || rr.Panic != "" {
+		return "RRErr"
+	}
+	iss := "None"
+	if rr.Iss != "" {
+		iss = "(Some " + hx([]byte(rr.Iss)) + ")"
+	}
+	join := "None"
+	if rr.Join != nil {
+		join = "(Some " + hx(rr.Join) + ")"
+	}
+	return fmt.Sprintf("(RROk %s %v %s %s %s %s %s)", hx(rr.Ran), rr.Ok, hx(rr.Sig), iss, bytesListCoq(rr.Fork), join, bytesListCoq(rr.Prf))
 }
 
 func bytesReadMsg(o *bytesObs, m message.AgentMessage, lookups []ipld.Link) {
@@ -155,6 +231,11 @@ func bytesReadMsg(o *bytesObs, m message.AgentMessage, lookups []ipld.Link) {
 	for _, l := range lookups {
 		if rl, ok := m.Get(l); ok && rl != nil {
 			o.Gets = append(o.Gets, []byte(rl.Binary()))
+			rr := bytesReadReceipt(m, rl)
+			if rr.Panic != "" && o.Panic == "" {
+				o.Panic = "reading the receipt " + rl.String() + " named by the report: " + rr.Panic
+			}
+			o.Reads = append(o.Reads, rr)
 		} else {
 			o.Gets = append(o.Gets, nil)
 		}
@@ -255,7 +336,11 @@ func (o bytesObs) coq(names *c12Names) string {
 		}
 		its = append(its, ic)
 	}
-	return fmt.Sprintf("(BOMsg %s %s %s %s [%s])", hx(o.Root), bytesListCoq(o.Exec), bytesListCoq(o.Rcpts), bytesListCoq(o.Gets), strings.Join(its, "; "))
+	var rds []string
+	for _, rr := range o.Reads {
+		rds = append(rds, rr.coq())
+	}
+	return fmt.Sprintf("(BOMsg %s %s %s %s [%s] [%s])", hx(o.Root), bytesListCoq(o.Exec), bytesListCoq(o.Rcpts), bytesListCoq(o.Gets), strings.Join(rds, "; "), strings.Join(its, "; "))
 }
 
 // the shortest description of body relative to base
@@ -412,6 +497,7 @@ func (s *bytesSet) write(dir string, shards int) ([]bytesFileMeta, error) {
 		sb.WriteString("Definition M := Eval vm_compute in bad_of R 0.\nPrint M.\n")
 		sb.WriteString("Definition S := Eval vm_compute in hist_of R.\nPrint S.\n")
 		sb.WriteString("Definition V := Eval vm_compute in map snd R.\nPrint V.\n")
+		sb.WriteString("Definition RH := Eval vm_compute in rhist_of bases cases.\nPrint RH.\n")
 		name := fmt.Sprintf("%s_%02d.v", s.prefix, k)
 		if err := writeFile(dir, name, sb.String()); err != nil {
 			return nil, err
@@ -1068,6 +1154,10 @@ func newBytesC15(o genOpts, replies *[]*reply, invs []invocation.Invocation, ser
 		bytesMkBlock(cbMap(cbText("ocm"), cbMap(cbText("ran"), cbLink(look[1])), cbText("sig"), cbBytes([]byte{4, 5, 6})), ""),
 	}
 	for _, bb := range bytesBodies(o.seed, o.tier, invs, look, rc, append(other, rc[0])) {
+		*replies = append(*replies, &reply{Label: "bytes " + bb.Label, Raw: bb.Body, Status: 200, Lookups: look})
+	}
+	// hand-written receipt root blocks behind a proper report: what the receipt reader makes of them
+	for _, bb := range bytesReceiptBodies(look, service.DID().String(), other) {
 		*replies = append(*replies, &reply{Label: "bytes " + bb.Label, Raw: bb.Body, Status: 200, Lookups: look})
 	}
 	return b
